@@ -411,6 +411,8 @@ pub fn run_case(case: &Case) -> CaseResult {
 		last_params: Vec<Option<f64>>,
 		/// the value each parameter had at the end of the previous chunk
 		last_values: Vec<Option<f64>>,
+		/// the value each parameter showed in the first chunk in which its modulator was gone
+		gone_values: Vec<Option<f64>>,
 		_track: kira::track::TrackHandle,
 	}
 	let mut readers: Vec<Reader> = vec![];
@@ -526,6 +528,7 @@ pub fn run_case(case: &Case) -> CaseResult {
 						first_cb: cb,
 						last_params: vec![None; n],
 						last_values: vec![None; n],
+						gone_values: vec![None; n],
 						_track: t,
 					});
 				}
@@ -737,6 +740,7 @@ pub fn run_case(case: &Case) -> CaseResult {
 							r.last_values[li] = Some(got_param);
 							match want {
 								Some(v) => {
+									r.gone_values[li] = None;
 									let mut tol = 1e-9 * (1.0 + v.abs());
 									if let RefMod::Follower { map: fm, .. } = &mods[*mi].model {
 										// (its value is itself the result of a mapping: same allowance as for parameters)
@@ -799,6 +803,20 @@ pub fn run_case(case: &Case) -> CaseResult {
 									if seen.is_some() && mods[*mi].drop_gap.is_some() {
 										res.fail(Violation::new("removal", "removed-modulator-still-visible", format!("op {oi} (callback {cb}): modulator {mi} was removed but readers still see {seen:?}")));
 										break 'ops;
+									}
+									// held: constant from the removal on - also while a hand-over tween towards
+									// the (now unresolvable) link was still running
+									match r.gone_values[li] {
+										Some(g) if got_param != g => {
+											res.fail(Violation::new(
+												"removal",
+												"linked-parameter-did-not-hold",
+												format!("op {oi} (callback {cb}) chunk {k}: modulator {mi} is gone; the parameter linked to it was {g} when it went and is {got_param} now"),
+											));
+											break 'ops;
+										}
+										Some(_) => {}
+										None => r.gone_values[li] = Some(got_param),
 									}
 									if let (Some(lp), true) = (r.last_params[li], o.settled) {
 										if got_param != lp {
